@@ -14,6 +14,7 @@ SRC = r'''
 #include <stdio.h>
 #include <stdlib.h>
 #include <string.h>
+#include <unistd.h>
 #include "w2c2_base.h"
 void trap(Trap t) { fprintf(stderr, "trap %d\n", (int) t); abort(); }
 static wasmMemory mem;
@@ -48,6 +49,23 @@ static void run_sb_##NAME(CT mask) { pthread_t th[2]; long k, bad = 0; int i; \
   for (i = 0; i < 2; i++) pthread_join(th[i], NULL); \
   if (bad == 0) printf("sb_" #NAME " ok\n"); \
   else printf("sb_" #NAME " FAIL %ld of %ld rounds of the store-buffering litmus (T0: store X; load Y  ||  T1: store Y; load X) ended with BOTH loads returning the old value: no total order of the four accesses explains that\n", bad, sbRounds); }
+/* ---- hand-over: a spin-wait on an atomic load must observe another thread's atomic store (an atomic load that the compiler may
+        hoist out of the loop — e.g. a plain dereference — never does at -O2) */
+static volatile int hoDone;
+#define HO(NAME, STORE, LOAD, CT) \
+static void* ho_##NAME(void* p) { (void) p; while (LOAD(&mem, 256) == 0) {} hoDone = 1; return NULL; } \
+static int run_ho_##NAME(void) { pthread_t th; int i; memset(mem.data + 256, 0, 8); hoDone = 0; \
+  pthread_create(&th, NULL, ho_##NAME, NULL); usleep(3000); STORE(&mem, 256, (CT) 1); \
+  for (i = 0; i < 3000 && !hoDone; i++) usleep(1000); \
+  if (hoDone) { pthread_join(th, NULL); printf("ho_" #NAME " ok\n"); return 0; } \
+  printf("ho_" #NAME " FAIL a thread spinning on " #LOAD " did not observe the value written by another thread's " #STORE " within 3 s (the load is not performed in every iteration: not an atomic access)\n"); return 1; }
+HO(i32, i32_atomic_store, i32_atomic_load, U32)
+HO(i64, i64_atomic_store, i64_atomic_load, U64)
+HO(i32_8, i32_atomic_store8, i32_atomic_load8_u, U32)
+HO(i64_8, i64_atomic_store8, i64_atomic_load8_u, U64)
+HO(i32_16, i32_atomic_store16, i32_atomic_load16_u, U32)
+HO(i64_16, i64_atomic_store16, i64_atomic_load16_u, U64)
+HO(i64_32, i64_atomic_store32, i64_atomic_load32_u, U64)
 SB(i32, i32_atomic_store, i32_atomic_load, U32)
 SB(i64, i64_atomic_store, i64_atomic_load, U64)
 SB(i32_16, i32_atomic_store16, i32_atomic_load16_u, U32)
@@ -60,6 +78,8 @@ int main(int argc, char** argv) {
 @@RUNS@@
   sbRounds = argc > 3 ? atol(argv[3]) : 200000;
   run_sb_i32(0xffffffffu); run_sb_i64(~(U64) 0); run_sb_i32_16(0xffffu); run_sb_i64_8(0xffu);
+  { int stuck = 0; stuck += run_ho_i32(); stuck += run_ho_i64(); stuck += run_ho_i32_8(); stuck += run_ho_i64_8();
+    stuck += run_ho_i32_16(); stuck += run_ho_i64_16(); stuck += run_ho_i64_32(); fflush(stdout); if (stuck) _exit(0); }
   return 0;
 }
 '''
